@@ -261,6 +261,34 @@ b("lt-via-curie", "C15", API, "        return self.pair < other.pair", "        
 b("config-strip-whitespace", "C15", API, "    model_config = ConfigDict(frozen=True)\n\n    @model_validator(mode=\"before\")", "    model_config = ConfigDict(frozen=True, str_strip_whitespace=True)\n\n    @model_validator(mode=\"before\")", "C15-D4")
 
 
+# ------------------------------------------------------------------------------------- round-2 rules
+b("is-uri-any-trie-keys", "C01 C07", API, "        return self.compress(s) is not None\n", "        return any(self.trie.iter_prefixes(s))\n", "C01-D4 C07-D6")
+b("compress-needs-identifier", "C01 C07", API, "        reference = self.parse_uri(uri, return_none=True)\n        if reference:\n            return self.format_curie(", "        reference = self.parse_uri(uri, return_none=True)\n        if reference and reference.identifier:\n            return self.format_curie(", "C01-D4 C07-D6")
+t("twin-compress-is-not-none", "C01 C03 C07 C08", API, "        reference = self.parse_uri(uri, return_none=True)\n        if reference:\n            return self.format_curie(", "        reference = self.parse_uri(uri, return_none=True)\n        if reference is not None:\n            return self.format_curie(")
+b("dup-error-dedup", "C04", API, "        self.duplicates = duplicates\n", "        self.duplicates = list({d.prefix: d for d in duplicates}.values())\n", "C04-D6")
+t("twin-dup-error-list-copy-name", "C04", API, "    def __init__(self, duplicates: list[DuplicateSummary]) -> None:\n        \"\"\"Initialize the error.\"\"\"\n        self.duplicates = duplicates\n", "    def __init__(self, duplicates: list[DuplicateSummary]) -> None:\n        \"\"\"Initialize the error.\"\"\"\n        super().__init__()\n        self.duplicates = duplicates\n")
+b("add-record-fast-return", "C05 C06 C09", API, "        matched = self._match_record(record, case_sensitive=case_sensitive)\n", "        if merge and self.prefix_map.get(record.prefix) == record.uri_prefix:\n            return\n        matched = self._match_record(record, case_sensitive=case_sensitive)\n", "C05-D4 C06-X5 C09-X5")
+b("triples-writer-quote-none", "C15", TRI, 'writer = csv.writer(file, delimiter="\\t")', 'writer = csv.writer(file, delimiter="\\t", quoting=csv.QUOTE_NONE, escapechar="\\\\")', "C15-D7")
+t("twin-triples-lineterminator", "C15", TRI, 'writer = csv.writer(file, delimiter="\\t")', 'writer = csv.writer(file, delimiter="\\t", lineterminator="\\n")')
+t("twin-triples-quote-minimal-both", "C15", TRI, 'writer = csv.writer(file, delimiter="\\t")', 'writer = csv.writer(file, delimiter="\\t", quoting=csv.QUOTE_MINIMAL)')
+b("file-helper-quote-none", "C16", API, "reader = csv.reader(file_in, delimiter=delimiter)", "reader = csv.reader(file_in, delimiter=delimiter, quoting=csv.QUOTE_NONE)", "C16-D4")
+t("twin-file-helper-lineterminator", "C16", API, "writer = csv.writer(file_out, delimiter=delimiter)", 'writer = csv.writer(file_out, delimiter=delimiter, lineterminator="\\r\\n")')
+b("converter-len", "C15", API, "    def _index(self, record: Record) -> None:\n", "    def __len__(self) -> int:\n        return len(self.records)\n\n    def _index(self, record: Record) -> None:\n", "C15-D5")
+b("converter-bool", "C15", API, "    def _index(self, record: Record) -> None:\n", "    def __bool__(self) -> bool:\n        return bool(self.records)\n\n    def _index(self, record: Record) -> None:\n", "C15-D5")
+t("twin-record-len", "C15", API, "    def _key(self) -> RecordKey:\n", "    def __len__(self) -> int:\n        return 1 + len(self.prefix_synonyms)\n\n    @property\n    def _key2(self) -> int:\n        return 0\n\n    @property\n    def _key(self) -> RecordKey:\n".replace("    @property\n    def _key(self)", "    def _key(self)"))
+b("fastapi-prefix-ncname", "C17", RES, '            title="Prefix",\n', '            title="Prefix",\n            pattern=r"^[A-Za-z_][A-Za-z0-9\\.\\-_]*$",\n', "C17-D1")
+b("fastapi-prefix-maxlen", "C17", RES, '            title="Prefix",\n', '            title="Prefix",\n            max_length=32,\n', "C17-D1")
+t("twin-fastapi-prefix-minlen1", "C17", RES, '            title="Prefix",\n', '            title="Prefix",\n            min_length=1,\n')
+t("twin-fastapi-prefix-noslash", "C17", RES, '            title="Prefix",\n', '            title="Prefix",\n            pattern=r"^[^/]+$",\n')
+b("order-remap-resorted", "C11", REC, "        d = {k: v for k, v in d.items() if v not in no_outgoing}\n    return rv\n", "        d = {k: v for k, v in d.items() if v not in no_outgoing}\n    return sorted(rv)\n", "C11-D6")
+b("order-remap-peel-by-key", "C11", REC, "edges = sorted((k, v) for k, v in d.items() if v in no_outgoing)", "edges = sorted((k, v) for k, v in d.items() if k in no_outgoing)", "C11-D6")
+t("twin-order-remap-unsorted-layer", "C11", REC, "edges = sorted((k, v) for k, v in d.items() if v in no_outgoing)", "edges = [(k, v) for k, v in d.items() if v in no_outgoing]")
+b("jsonld-reader-skip-at-values", "C13 C14", API, "            if isinstance(value, str):\n                prefix_map[key] = value\n", "            if isinstance(value, str):\n                if value.startswith(\"@\"):\n                    continue\n                prefix_map[key] = value\n", "C13-D5 C14-D2")
+b("epm-writer-exclude-unset", "C14", API, "    rv: dict[str, str | list[str]] = {\n        \"prefix\": record.prefix,\n", "    rv: dict[str, str | list[str]] = record.model_dump(exclude_unset=True)\n    rv = {\n        \"prefix\": record.prefix,\n", "C14-D1")
+b("subconverter-shallow-copy", "C10 C09", API, "        return Converter(records, delimiter=self.delimiter)\n", "        if len(records) == len(self.records):\n            import copy\n            rv = copy.copy(self)\n            rv.records = records\n            return rv\n        return Converter(records, delimiter=self.delimiter)\n", "C10-D3 C09-X1")
+b("match-record-fast-path", "C05 C09", API, "        rv: defaultdict[RecordKey, list[str]] = defaultdict(list)\n        for record in self.records:", "        rv: defaultdict[RecordKey, list[str]] = defaultdict(list)\n        if external.prefix in self.prefix_map and self.prefix_map[external.prefix] == external.uri_prefix:\n            return {self.get_record(external.prefix)._key: [\"prefix match\"]}\n        for record in self.records:", "C05-D6 C09-D2")
+
+
 def apply_unified_diff(files: dict, diff_text: str) -> dict | None:
     """Apply a unified diff (git format, paths a/src/curies/...) to an in-memory tree; None if it does not fit."""
     import re as _re
